@@ -68,7 +68,9 @@ class StringConcatLoopRule(MultiLanguageLintRule):
         Returns:
             PerformanceConfig instance
         """
-        return load_linter_config(context, "performance", PerformanceConfig)
+        return load_linter_config(context, "performance", PerformanceConfig).for_rule(
+            "string-concat-loop"
+        )
 
     def _check_python(self, context: BaseLintContext, config: PerformanceConfig) -> list[Violation]:
         """Check Python code for string concatenation in loops.
